@@ -149,6 +149,13 @@ theorem KeepFns.for_ {gs g5 : GS} {c : Ctx} {label : Option String} {brk cont : 
   · show g5.loopstack.drop 1 = gs.loopstack
     rw [h.loopstack]; rfl
 
+/-- a call with a computed callee is one instruction; the callee is compiled when the instruction runs -/
+theorem compile_call_nonsym (isFn : Nat → Bool) (c : Ctx) {f : Expr} (args : List Expr) (gs : GS) (hns : ∀ x, f ≠ .sym x) :
+    (compile isFn c (.call f args)).run gs = .ok (([.callExpr f args], c.tail), gs) := by
+  cases f with
+  | sym x => exact absurd rfl (hns x)
+  | _ => rw [compile] <;> first | rfl | (intro _ hh; cases hh)
+
 mutual
 theorem compile_total_Ff : ∀ (fnOk : Bool) (self : String) (e : Expr), Ff fnOk self e = true → ∀ isFn c gs,
     FnameOk self c → ∃ code t gs', (compile isFn c e).run gs = .ok ((code, t), gs') ∧ code ≠ [] ∧ TotF fnOk gs gs'
@@ -273,7 +280,7 @@ theorem compile_total_Ff : ∀ (fnOk : Bool) (self : String) (e : Expr), Ff fnOk
       have hne := ff_call_ne hfn he.1.1.1 he.1.1.2 he.1.2
       simp only [hne, Bool.and_false, Bool.false_eq_true, if_false]
       rfl
-    | _ => simp [Ff] at he
+    | _ => exact ⟨_, _, gs, compile_call_nonsym isFn c args gs (fun _ hh => by cases hh), by simp, TotF.refl _ _⟩
   | fnOk, self, .fn ps rest body, he, isFn, c, gs, hfn => by
     rw [Ff] at he
     simp only [Bool.and_eq_true, Option.isNone_iff_eq_none, decide_eq_true_eq, Bool.not_eq_true',
